@@ -124,7 +124,7 @@ prop("C11", quick={"runs": 30000}, thorough={"runs": 100000000, "budget_s": 600}
      "compared with the reference map. Non-trivial: at least one cleanup cycle ran; distinct = distinct (scenario, schedule).",
      rules=["C11.R1 wrongly-deleted (never-expiring / fresh / recently expired entry removed)", "C11.R2 not-deleted (long-expired entry kept although the scan is documented to run)"],
      probes=["janitor_met_never_expiring_entry", "janitor_met_fresh_entry", "janitor_met_recently_expired_entry", "janitor_deleted_long_expired_entry",
-             "unlimited_cache_with_explicit_ttl_cycle", "entry_without_expiry_restored", "fresh_write_during_cleanup_cycle"])
+             "unlimited_cache_with_explicit_ttl_cycle", "entry_without_expiry_restored", "entry_with_expiry_restored", "fresh_write_during_cleanup_cycle"])
 prop("C12", quick={"runs": 6000}, thorough={"runs": 100000000, "budget_s": 600},
      rule=BE_RULE + "Root-driven fill of 1-400 entries around CountSoftLimit, access histories (reads at distinct simulated instants, rewrites), "
      "EvictionNeeded scripts, HeapInUseSoftLimit / SysMemSoftLimit at the two allocator-independent settings (1 byte: always exceeded, MaxUint64: never), "
